@@ -38,6 +38,10 @@ register("C04", "TLA+ relation Acceptable(history, cfg, report) + transcription 
          "TLC proves on every history of the bounded family that the (repaired) selection algorithm satisfies the relation and that the violation measure equals the documented formula; every enumerated instance is built as a real Database + OptimizationProblem, and problem.optimum, OptimizationResult.from_optimization_problem, last_point, feasible_points, check_design_point_is_feasible, Pareto fronts are fed back to TLC which evaluates the relation clause by clause on the real reports (ties and under-specified cases are accepted as a relation; a tie-breaking change is a negative control).",
          "Trusted: TLC; values are quarters (exact). Feasible = every constraint recorded and within tolerance. Vector objectives only in the Pareto clause. Bounded: <=3 (thorough 4) points, <=2 constraints.",
          "DESIGN.md section 4 C04, 9.4")
+register("C05", "TLA+ property layer (transparency clauses) + code-shaped cache model (hash index, tolerance scan, by-reference/by-copy storage, Jacobian levels, reopen) checked by TLC; transition tours replayed on harness disciplines with every real cache kind, with collision injection; recorded returns validated by DiscCacheTrace.tla",
+         "TLC checks TransparentOut/TransparentJac, AtMostOnce, CallerCannotCorrupt, SimpleKeepsLast, ReopenSame and the coherence of the code-shaped model on every execute/linearize/mutate-in-place/set-diff/clear/reopen history of the bounded models per (cache kind, tolerance, hash collision), and refutes the pre-fix storage rules on every run; every transition tour is executed on a real discipline (several inputs/outputs, self-coupled variable, dense and sparse Jacobians, caller arrays edited in place) with SimpleCache, MemoryFullCache (shared/local), HDF5Cache and no cache; returns, entries and counters are compared with TLC's states and the recorded returns are judged clause by clause by a trace specification (which admissible entry is served is a relation).",
+         "Trusted: TLC; 1-D lattice on which the tolerance relation is decided exactly; hash collisions are injected by rebinding hash_data inside the harness worker process (test double). Switching cache kind mid-history and cache API reads (last_entry, update, +) are not modelled.",
+         "DESIGN.md section 4 C05, 9.4")
 register("C07", "TLA+ exact integer model of the coupled-derivative assembly (minimal couplings by two-way traversal with merged groups and caches, block layout, -I residual diagonal, direct/adjoint solves, split by variable) vs an independent closed form, checked by TLC; instances and request histories replayed on real MDAs / JacobianAssembly",
          "TLC checks IFT (the closed form satisfies the implicit-function equations), AssembledIsClosedForm, DirectEqAdjoint, SubsetIndependence, StructuralZeros, Shapes, CacheCoherent and NoRaise on every enumerated unimodular system (9 topologies incl. weak head/tail, self-coupled, two groups in sequence; sizes 1-2) and request history, and refutes the pre-fix rules on every run; each instance and history is replayed on real MDA classes and JacobianAssembly.total_derivatives over mode x matrix type x LU x solvers x Jacobian kinds and every block equals TLC's integer block to 1e-9 with its shape.",
          "Trusted: TLC; unimodular residual Jacobians (integer inverse, condition number small). Disciplines with residual/state variables, conditioning and iterative-solver tolerances are outside the slice.",
